@@ -156,8 +156,6 @@ def _check_structure(rec, case, mats, rng, sig):
                 ok3, Ar = guarded(rec, case, dict(sig, route='reorder.asmatrix'), Xr.asmatrix)
                 if ok3 and not np.array_equal(Ar.toarray(), Kr):
                     bad('reorder(axes) = Kronecker product of permuted levels', axes=list(axes))
-        else:
-            rec.count('oracle:reorder')
     ok, St = guarded(rec, case, dict(sig, route='transpose'), S.transpose)
     if ok:
         rec.count('oracle:transpose')
